@@ -316,6 +316,11 @@ func runC05(env *lib.Env, rep *lib.Report) {
 				{{kind: "col", col: qRef{"", "a"}, alias: "b"}, {kind: "col", col: qRef{"", "b"}, alias: "a"}},
 				{{kind: "col", col: qRef{"", "c"}, alias: "d"}, {kind: "col", col: qRef{"", "a"}}},
 				{{kind: "col", col: qRef{"", "d"}, alias: "c"}, {kind: "col", col: qRef{"", "b"}}},
+				// aliases that differ from the column's own name in letter case only, or not at all
+				{{kind: "col", col: qRef{"", "a"}, alias: "A"}},
+				{{kind: "col", col: qRef{"", "c"}, alias: "C"}, {kind: "col", col: qRef{"", "a"}}},
+				{{kind: "col", col: qRef{"", "b"}, alias: "B"}, {kind: "col", col: qRef{"", "a"}, alias: "x"}},
+				{{kind: "col", col: qRef{"", "a"}, alias: "a"}, {kind: "col", col: qRef{"", "b"}, alias: "A"}},
 			} {
 				for _, it := range l {
 					for _, dir := range []string{"", "DESC"} {
